@@ -15,6 +15,7 @@ claimed = {
  "C05": ("Symbolic RunTx: on acceptance no account other than the signer is debited; owner gates per type; multisig weights/duplicates.", "§4 C05", ""),
  "C06": ("Relational harness: CheckTx on a CheckState then DeliverTx on the same symbolic state; verdicts must agree and CheckTx must not mutate.", "§4 C06", ""),
  "C07": ("Every feasible panic path of every transaction/block harness is a violation, replayed natively before being reported.", "§4 C07", "Byte-level decoder layer is covered only as far as listed in evidence."),
+ "C08": ("Map-iteration order as a nondeterministic choice: two State.Commit calls over a populated universe are executed under every iteration order of every map range met (one deviating site per path); the ordered database writes must be identical. A difference is confirmed natively by repeated runs showing differing IAVL root hashes.", "§4 C08", "PARTIAL: map-order part of the property only, concrete data; goroutine scheduling, GOMAXPROCS/GOGC, separate processes are not exercised (block execution starts no goroutines)."),
  "C09": ("Persist-then-reload step for the app DB: genesis block plus one block, with or without a restart, symbolic emission/price; a fresh instance over the same store must answer every getter like the continuing one.", "§4 C09", "State-module stores are covered only as listed in evidence."),
  "C10": ("The app-DB write sequence of the real Blockchain.Commit is executed against a write-budget store for every crash point; a restarted AppDB/Info() over the surviving prefix is checked against the recovery contract (no mixed height/hash pair; a reported height carries its own emission and price; h-1 keeps its own).", "§4 C10", "PARTIAL: application-level write order only; IAVL crash atomicity, LevelDB durability and the Tendermint handshake are by contract. Two open findings (F7, F8)."),
  "C12": ("Formula layer of the four bancor functions executed symbolically with big.Float over exact reals and math.Pow as a constrained uninterpreted function: results non-negative, sale return <= reserve, zero in -> zero out, selling the whole supply returns the reserve, crr=100 branches equal the exact integer formulas, and the exponent passed to Pow is the bonding-curve exponent.", "§4 C12", "PARTIAL: the numerical accuracy of math/pow.go, exp.go, log.go and the 100-bit rounding (bounded relative error, monotonicity under rounding, buy-then-sell) is outside; it cannot be encoded within reach of the solvers."),
@@ -35,7 +36,7 @@ not_applicable = {
  "C29": "state sync: every component on the path (zlib, protobuf, cosmos-sdk snapshot store, IAVL exporter/importer, a goroutine) would be a stub, leaving no repository logic under the solver (DESIGN.md §5)",
 }
 pending = {k: "not claimed yet in this revision: harnesses under construction (see DESIGN.md); no check is registered, so nothing is asserted about it" for k in
-           ["C08","C11","C14","C15","C17","C21","C23"]}
+           ["C11","C14","C15","C17","C21","C23"]}
 
 def main():
     checks = []
